@@ -483,6 +483,19 @@ pub fn exec(case: &Case) -> Outcome {
 
         if !lost.is_empty() {
             // structural classification of the loss
+            // the end of the history counts as one more restart point: what would a recovery starting now find?
+            let end_flushed = cardinalsin::ingester::load_flushed_seq(&world.wal_dir).unwrap_or(0);
+            let mut end_recoverable: BTreeSet<String> = BTreeSet::new();
+            if world.wal_dir.exists() {
+                if let Ok(wal) = cardinalsin::ingester::WriteAheadLog::open(world.config().wal).await {
+                    for e in wal.read_entries_after(end_flushed).unwrap_or_default() {
+                        if let Ok(bs) = e.batches() {
+                            end_recoverable.extend(rows_of_all(&bs));
+                        }
+                    }
+                }
+            }
+            world.restarts_seen.push(RestartSnap { log_pos: core.log_len() as u64, flushed: end_flushed, stored: stored.clone(), recoverable: end_recoverable.clone() });
             let registered: BTreeSet<String> = chunks.iter().map(|c| c.chunk_path.clone()).collect();
             let mut taken_by_failed_flush: BTreeSet<String> = BTreeSet::new();
             for (_, path, data) in core.attempts() {
@@ -559,7 +572,9 @@ pub fn exec(case: &Case) -> Outcome {
                 .any(|(n, p)| reg_served.iter().filter(|s| **s <= p.arrival_served).count() < n + 1);
             let sig = if truncated_ahead_of_registration {
                 "lost:acknowledged-rows-missing"
-            } else if all_in_failed && failed_flush {
+            } else if all_in_failed && failed_flush && lost.iter().all(|r| end_recoverable.contains(*r) || covered_by_foreign_mark(r)) {
+                // rows dropped from memory by a failed flush: still in the WAL (a restart would bring
+                // them back), unless a later flush's mark covers them (the other known class)
                 "lost:rows-taken-by-a-flush-that-failed"
             } else if all_d2 && (crashes > 0 || restarts > 0) {
                 "lost:flushed-mark-covers-write-not-in-the-flushed-data"
